@@ -3,7 +3,7 @@ from .. import lib, runner, muxsim
 
 PROP = "C05"
 THEOREMS = ["Mux.w_stb_initially", "Mux.w_stb_exact", "Mux.ro_unmapped_inert", "Mux.write_concat", "Mux.sharing_unobservable_write", "Mux.decode_inj_within"]
-IMPORTS = ["SocVerif"]
+IMPORTS = ["SocVerif.Props.C05"]
 
 
 def nontrivial(r):
